@@ -16,6 +16,11 @@ claimed = {
    note="Assumed: strconv.ParseInt/FormatInt, math/big.Int (modelled as 256-bit integers), big.Float accuracy, go/ssa, solvers, govc; int is 64 bits. floorDiv, floorMod and multiplyExact are not under proof (64x64-bit products/divisions undecided by all three solvers) and are listed as such in evidence; completeness (error only when out of range) is proved for integer representations only.",
    technique="contract-based deductive verification: pattern contracts over go/ssa VCs (bit-vector and floating-point SMT), counterexamples replayed on the real code",
    design="DESIGN.md §4 C13"),
+ "C19": dict(
+   text="Proof over the full 8/16/32-bit (and, for string-typed codes, all strings) domains: for each of the 16 code types IsValid(x) holds exactly for the constants declared for that type (enumerated from the source by go/types on every run); ProtocolVersion.IsSupported likewise (loop unrolled completely, unwinding obligation); String() of every declared constant returns a literal name, never the formatted fall-back; every opcode is exactly one of request/response; Check* helpers return nil exactly for declared values; 20 capability predicates equal truth tables transcribed from the six protocol specifications.",
+   note="Assumed: go/ssa, solvers, govc, fmt.Sprintf/Errorf return fresh values; the truth tables are a hand transcription of specs/*.spec (that transcription is the oracle); for undeclared version numbers only totality is required.",
+   technique="contract-based deductive verification: closure contracts generated from declared constants, SMT over bit-vectors and an uninterpreted string sort",
+   design="DESIGN.md §4 C19"),
 }
 
 not_applicable = {
